@@ -99,6 +99,7 @@ type Engine struct {
 	builtPkgs      map[*ssa.Package]bool
 	buildMu        sync.Mutex
 	fnInfos        sync.Map
+	fnNames        sync.Map
 	verbose        bool
 	crossSolvers   []SolverKind
 	crossSeen      map[string]bool
